@@ -50,6 +50,7 @@ var targets = []target{
 	{"runtime", "Soz", ""},
 	{"runtime", "nestedRecursionLimit", ""},
 	{"runtime", "EncodeVarint", "10"},
+	{"runtime", "Skip", "dAtA.length + 1; 11; 11; 11"},
 	{"generator", "KeySize", "5"},
 }
 
@@ -68,16 +69,21 @@ type pkgInfo struct {
 }
 
 type fnTr struct {
-	p       *pkgInfo
-	all     map[string]*pkgInfo // by dir
-	fn      *ast.FuncDecl
-	fuel    string
-	helpers []string // loop helper definitions, emitted before the function
-	nloop   int
-	written map[string]bool // slice parameters written by the function
-	resTy   string
-	void    bool
-	calls   map[string]bool
+	p         *pkgInfo
+	all       map[string]*pkgInfo // by dir
+	fn        *ast.FuncDecl
+	fuel      string
+	helpers   []string // loop helper definitions, emitted before the function
+	nloop     int
+	written   map[string]bool // slice parameters written by the function
+	resTy     string
+	void      bool
+	calls     map[string]bool
+	errRes    bool               // the last declared result is `error`: it is folded into the Res outcome
+	breakK    func(d int) string // what `break` means in the loop being translated
+	loopNames map[*ast.ForStmt]string
+	loopFuel  map[*ast.ForStmt]string
+	inLoop    int // > 0 while translating the body of a loop with exits (break / return): results are Sum values
 }
 
 var leanKeywords = map[string]bool{"at": true, "from": true, "end": true, "fun": true, "open": true, "in": true, "do": true,
@@ -560,10 +566,11 @@ func arith(k kind, op token.Token, a, b string, pos token.Pos) string {
 		}
 		return "(" + a + " % " + b + ")"
 	case token.AND, token.OR, token.XOR:
-		if k.signed {
-			bad(pos, "bitwise operator on a signed value")
-		}
 		o := map[token.Token]string{token.AND: "&&&", token.OR: "|||", token.XOR: "^^^"}[op]
+		if k.signed {
+			// two's complement: on the bit patterns of the operands' width
+			return "(Go.sbits " + pow2(k.bits) + " (fun x y => x " + o + " y) " + a + " " + b + ")"
+		}
 		return "(" + a + " " + o + " " + b + ")"
 	}
 	bad(pos, "unsupported operator %s", op)
@@ -679,6 +686,46 @@ func (f *fnTr) retTerm(vals []string) string {
 		return "pure " + parts[0]
 	}
 	return "pure (" + strings.Join(parts, ", ") + ")"
+}
+
+// retInContext: `return vals` at the current place: inside a loop with exits the value travels out as `Sum.inr`
+func (f *fnTr) retInContext(vals []string) string {
+	t := f.retTerm(vals)
+	if f.inLoop > 0 {
+		return "pure (Sum.inr (" + strings.TrimPrefix(t, "pure ") + "))"
+	}
+	return t
+}
+
+// errCode: the model's name for a Go error value (only which error it is, never its text)
+func (f *fnTr) errCode(e ast.Expr) string {
+	name := ""
+	switch x := ast.Unparen(e).(type) {
+	case *ast.Ident:
+		name = x.Name
+	case *ast.SelectorExpr:
+		name = x.Sel.Name
+	case *ast.CallExpr:
+		if sel, ok := x.Fun.(*ast.SelectorExpr); ok && sel.Sel.Name == "Errorf" && len(x.Args) > 0 {
+			if tv, ok := f.p.info.Types[x.Args[0]]; ok && tv.Value != nil && strings.Contains(tv.Value.ExactString(), "illegal wireType") {
+				return ".illegalWire"
+			}
+		}
+		return ".other"
+	}
+	switch name {
+	case "ErrIntOverflow":
+		return ".overflow"
+	case "ErrInvalidLength":
+		return ".invalidLength"
+	case "ErrUnexpectedEndOfGroup":
+		return ".endGroup"
+	case "ErrUnexpectedEOF":
+		return ".eof"
+	case "ErrRecursionDepth":
+		return ".depth"
+	}
+	return ".other"
 }
 
 func (f *fnTr) writtenList() []string {
@@ -829,7 +876,15 @@ func (f *fnTr) stmt(s ast.Stmt, d int, k func(d int) string) string {
 		return f.withValue(x, d, func(v string) string { return f.assignTo(s.X, arith(kd, op, v, one, s.Pos()), d, k) })
 	case *ast.ReturnStmt:
 		var xs []ex
-		for _, r := range s.Results {
+		results := s.Results
+		if f.errRes && len(results) > 0 {
+			last := results[len(results)-1]
+			results = results[:len(results)-1]
+			if !f.isNil(last) {
+				return ind(d) + ".err " + f.errCode(last) + "\n"
+			}
+		}
+		for _, r := range results {
 			if f.isNil(r) {
 				xs = append(xs, ex{"none", true})
 			} else {
@@ -839,10 +894,13 @@ func (f *fnTr) stmt(s ast.Stmt, d int, k func(d int) string) string {
 		if len(s.Results) == 0 && !f.void {
 			bad(s.Pos(), "bare return with named results")
 		}
+		if f.void && f.inLoop > 0 {
+			bad(s.Pos(), "return from a loop in a function without results")
+		}
 		var rec func(i int, vals []string) string
 		rec = func(i int, vals []string) string {
 			if i == len(xs) {
-				return ind(d) + f.retTerm(vals) + "\n"
+				return ind(d) + f.retInContext(vals) + "\n"
 			}
 			return f.withValue(xs[i], d, func(v string) string { return rec(i+1, append(append([]string{}, vals...), v)) })
 		}
@@ -878,6 +936,65 @@ func (f *fnTr) stmt(s ast.Stmt, d int, k func(d int) string) string {
 		return body(d)
 	case *ast.ForStmt:
 		return f.forLoop(s, d, k)
+	case *ast.SwitchStmt:
+		// expression switch without fallthrough / break: an if-chain on equality with the tag (evaluated once)
+		if s.Tag == nil {
+			bad(s.Pos(), "switch without tag")
+		}
+		ast.Inspect(s.Body, func(n ast.Node) bool {
+			if _, ok := n.(*ast.ForStmt); ok {
+				return false // a break in there leaves that loop, not the switch
+			}
+			if b, ok := n.(*ast.BranchStmt); ok && (b.Tok == token.FALLTHROUGH || b.Tok == token.BREAK || b.Tok == token.GOTO) {
+				bad(b.Pos(), "%s inside switch", b.Tok)
+			}
+			return true
+		})
+		body := func(d int) string {
+			return f.withValue(f.expr(s.Tag), d, func(tag string) string {
+				tmpN++
+				tv := fmt.Sprintf("tag%d_", tmpN)
+				out := ind(d) + "let " + tv + " := " + tag + "\n"
+				var deflt *ast.CaseClause
+				var clauses []*ast.CaseClause
+				for _, c := range s.Body.List {
+					cc := c.(*ast.CaseClause)
+					if cc.List == nil {
+						deflt = cc
+					} else {
+						clauses = append(clauses, cc)
+					}
+				}
+				var rec func(i int, d int) string
+				rec = func(i int, d int) string {
+					if i == len(clauses) {
+						if deflt != nil {
+							return f.stmts(deflt.Body, d, k)
+						}
+						return k(d)
+					}
+					var conds []string
+					for _, e := range clauses[i].List {
+						x := f.expr(e)
+						if !x.pure {
+							bad(e.Pos(), "effectful case expression")
+						}
+						conds = append(conds, "decide ("+tv+" = "+x.s+")")
+					}
+					return ind(d) + "if " + strings.Join(conds, " || ") + " then\n" + f.stmts(clauses[i].Body, d+1, k) + ind(d) + "else\n" + rec(i+1, d+1)
+				}
+				return out + rec(0, d)
+			})
+		}
+		if s.Init != nil {
+			return f.stmt(s.Init, d, body)
+		}
+		return body(d)
+	case *ast.BranchStmt:
+		if s.Tok == token.BREAK && s.Label == nil && f.inLoop > 0 && f.breakK != nil {
+			return f.breakK(d)
+		}
+		bad(s.Pos(), "unsupported branch statement %s", s.Tok)
 	}
 	bad(s.Pos(), "unsupported statement %T", s)
 	return ""
@@ -915,17 +1032,47 @@ func assignedVars(n ast.Node, out map[string]bool) {
 	})
 }
 
-func (f *fnTr) forLoop(s *ast.ForStmt, d int, k func(d int) string) string {
-	if f.fuel == "" {
-		bad(s.Pos(), "loop in a function without a fuel bound")
+func hasExits(body *ast.BlockStmt) bool {
+	found := false
+	var walk func(n ast.Node, inner bool)
+	walk = func(n ast.Node, inner bool) {
+		ast.Inspect(n, func(m ast.Node) bool {
+			switch x := m.(type) {
+			case *ast.ReturnStmt:
+				found = true
+			case *ast.BranchStmt:
+				if x.Tok == token.BREAK && !inner {
+					found = true
+				}
+			case *ast.ForStmt:
+				if m != n {
+					walk(x.Body, true)
+					if x.Init != nil {
+						walk(x.Init, inner)
+					}
+					return false
+				}
+			}
+			return true
+		})
 	}
+	walk(body, false)
+	return found
+}
+
+func (f *fnTr) forLoop(s *ast.ForStmt, d int, k func(d int) string) string {
 	ast.Inspect(s.Body, func(n ast.Node) bool {
 		switch n := n.(type) {
-		case *ast.BranchStmt, *ast.ReturnStmt, *ast.ForStmt, *ast.RangeStmt, *ast.SwitchStmt, *ast.SelectStmt, *ast.FuncLit, *ast.DeferStmt, *ast.GoStmt:
+		case *ast.RangeStmt, *ast.SelectStmt, *ast.FuncLit, *ast.DeferStmt, *ast.GoStmt, *ast.LabeledStmt:
 			bad(n.Pos(), "loop body with %T", n)
+		case *ast.BranchStmt:
+			if n.Tok != token.BREAK || n.Label != nil {
+				bad(n.Pos(), "loop body with %s", n.Tok)
+			}
 		}
 		return true
 	})
+	exits := hasExits(s.Body)
 	loop := func(d int) string {
 		// state: variables assigned in body/post that are declared outside the body
 		as := map[string]bool{}
@@ -935,11 +1082,18 @@ func (f *fnTr) forLoop(s *ast.ForStmt, d int, k func(d int) string) string {
 		}
 		declaredInside := map[string]bool{}
 		ast.Inspect(s.Body, func(n ast.Node) bool {
-			if a, ok := n.(*ast.AssignStmt); ok && a.Tok == token.DEFINE {
-				for _, l := range a.Lhs {
-					if id, ok := l.(*ast.Ident); ok {
-						declaredInside[id.Name] = true
+			switch a := n.(type) {
+			case *ast.AssignStmt:
+				if a.Tok == token.DEFINE {
+					for _, l := range a.Lhs {
+						if id, ok := l.(*ast.Ident); ok {
+							declaredInside[id.Name] = true
+						}
 					}
+				}
+			case *ast.ValueSpec:
+				for _, id := range a.Names {
+					declaredInside[id.Name] = true
 				}
 			}
 			return true
@@ -966,9 +1120,13 @@ func (f *fnTr) forLoop(s *ast.ForStmt, d int, k func(d int) string) string {
 				return true
 			})
 		}
-		collect(s.Cond)
+		if s.Cond != nil {
+			collect(s.Cond)
+		}
 		collect(s.Body)
-		collect(s.Post)
+		if s.Post != nil {
+			collect(s.Post)
+		}
 		stateTy := map[string]string{}
 		for _, v := range state {
 			t, ok := used[v]
@@ -984,8 +1142,6 @@ func (f *fnTr) forLoop(s *ast.ForStmt, d int, k func(d int) string) string {
 			}
 		}
 		sort.Strings(extra)
-		f.nloop++
-		name := fmt.Sprintf("%s_%s_loop%d", f.p.name, f.fn.Name.Name, f.nloop)
 		tuple := func(vs []string) string {
 			if len(vs) == 1 {
 				return lname(vs[0])
@@ -1009,16 +1165,6 @@ func (f *fnTr) forLoop(s *ast.ForStmt, d int, k func(d int) string) string {
 		if len(state) == 0 {
 			bad(s.Pos(), "loop without state")
 		}
-		var params []string
-		for _, v := range extra {
-			params = append(params, "("+lname(v)+" : "+f.leanTy(used[v], s.Pos())+")")
-		}
-		for _, v := range state {
-			params = append(params, "("+lname(v)+" : "+stateTy[v]+")")
-		}
-		var h strings.Builder
-		fmt.Fprintf(&h, "def %s (fuel_ : Nat) %s : Res %s :=\n", name, strings.Join(params, " "), tupleTy(state))
-		h.WriteString("  match fuel_ with\n  | 0 => .err .other\n  | fuel_ + 1 =>\n")
 		args := func() string {
 			var q []string
 			for _, v := range extra {
@@ -1029,24 +1175,80 @@ func (f *fnTr) forLoop(s *ast.ForStmt, d int, k func(d int) string) string {
 			}
 			return strings.Join(q, " ")
 		}
-		recur := func(d int) string { return ind(d) + name + " fuel_ " + args() + "\n" }
-		bodyAndPost := func(d int) string {
-			return f.stmts(s.Body.List, d, func(d int) string {
-				if s.Post != nil {
-					return f.stmt(s.Post, d, recur)
+		name, done := f.loopNames[s]
+		if !done {
+			f.nloop++
+			name = fmt.Sprintf("%s_%s_loop%d", f.p.name, f.fn.Name.Name, f.nloop)
+			f.loopNames[s] = name
+			fuels := strings.Split(f.fuel, ";")
+			if f.fuel == "" || f.nloop > len(fuels) {
+				bad(s.Pos(), "loop without a fuel bound in the translation table")
+			}
+			f.loopFuel[s] = strings.TrimSpace(fuels[f.nloop-1])
+			var params []string
+			for _, v := range extra {
+				params = append(params, "("+lname(v)+" : "+f.leanTy(used[v], s.Pos())+")")
+			}
+			for _, v := range state {
+				params = append(params, "("+lname(v)+" : "+stateTy[v]+")")
+			}
+			resTy := tupleTy(state)
+			stay := func(d int) string { return ind(d) + "pure " + tuple(state) + "\n" }
+			if exits {
+				resTy = "(Sum " + tupleTy(state) + " " + f.resTy + ")"
+				stay = func(d int) string { return ind(d) + "pure (Sum.inl " + tuple(state) + ")\n" }
+			}
+			recur := func(d int) string { return ind(d) + name + " fuel_ " + args() + "\n" }
+			savedLoop, savedBreak := f.inLoop, f.breakK
+			if exits {
+				f.inLoop++
+				f.breakK = stay
+			} else {
+				f.inLoop, f.breakK = 0, nil
+				if savedLoop > 0 {
+					// a loop without exits inside a loop with exits: its body has no return/break, nothing to route
+					f.inLoop = 0
 				}
-				return recur(d)
-			})
+			}
+			bodyAndPost := func(d int) string {
+				return f.stmts(s.Body.List, d, func(d int) string {
+					if s.Post != nil {
+						return f.stmt(s.Post, d, recur)
+					}
+					return recur(d)
+				})
+			}
+			var h strings.Builder
+			var bodyTxt string
+			if s.Cond == nil {
+				bodyTxt = bodyAndPost(2)
+			} else {
+				c := f.expr(s.Cond)
+				bodyTxt = f.withValue(c, 2, func(v string) string {
+					return ind(2) + "if " + v + " then\n" + bodyAndPost(3) + ind(2) + "else\n" + stay(3)
+				})
+			}
+			f.inLoop, f.breakK = savedLoop, savedBreak
+			fmt.Fprintf(&h, "def %s (fuel_ : Nat) %s : Res %s :=\n", name, strings.Join(params, " "), resTy)
+			h.WriteString("  match fuel_ with\n  | 0 => .err .other\n  | fuel_ + 1 =>\n")
+			h.WriteString(bodyTxt)
+			f.helpers = append(f.helpers, h.String())
 		}
-		if s.Cond == nil {
-			bad(s.Pos(), "loop without condition")
+		call := "(" + name + " (" + f.loopFuel[s] + ") " + args() + ")"
+		if !exits {
+			return ind(d) + call + " >>= fun " + tuple(state) + " =>\n" + k(d)
 		}
-		c := f.expr(s.Cond)
-		h.WriteString(f.withValue(c, 2, func(v string) string {
-			return ind(2) + "if " + v + " then\n" + bodyAndPost(3) + ind(2) + "else\n" + ind(3) + "pure " + tuple(state) + "\n"
-		}))
-		f.helpers = append(f.helpers, h.String())
-		return ind(d) + "(" + name + " (" + f.fuel + ") " + args() + ") >>= fun " + tuple(state) + " =>\n" + k(d)
+		tmpN++
+		c := fmt.Sprintf("x%d_", tmpN)
+		out := ind(d) + call + " >>= fun " + c + " =>\n" + ind(d) + "match " + c + " with\n"
+		out += ind(d) + "| Sum.inr r_ =>\n"
+		if f.inLoop > 0 {
+			out += ind(d+1) + "pure (Sum.inr r_)\n"
+		} else {
+			out += ind(d+1) + "pure r_\n"
+		}
+		out += ind(d) + "| Sum.inl " + tuple(state) + " =>\n" + k(d+1)
+		return out
 	}
 	if s.Init != nil {
 		return f.stmt(s.Init, d, loop)
@@ -1101,14 +1303,19 @@ func (f *fnTr) translate() (out string, err error) {
 		res = append(res, "Bytes")
 	}
 	namedResults := false
-	for i := 0; i < sig.Results().Len(); i++ {
+	nres := sig.Results().Len()
+	if nres > 0 && sig.Results().At(nres-1).Type().String() == "error" {
+		f.errRes = true
+		nres--
+	}
+	for i := 0; i < nres; i++ {
 		r := sig.Results().At(i)
 		res = append(res, f.leanTy(r.Type(), fn.Pos()))
 		if r.Name() != "" {
 			namedResults = true
 		}
 	}
-	f.void = sig.Results().Len() == 0
+	f.void = nres == 0
 	switch len(res) {
 	case 0:
 		f.resTy = "Unit"
@@ -1120,7 +1327,7 @@ func (f *fnTr) translate() (out string, err error) {
 	// named results are ordinary zero-initialised locals; a bare `return` is not supported
 	pre := ""
 	if namedResults {
-		for i := 0; i < sig.Results().Len(); i++ {
+		for i := 0; i < nres; i++ {
 			r := sig.Results().At(i)
 			z := "0"
 			if isBool(r.Type()) {
@@ -1223,7 +1430,7 @@ func main() {
 			failed[key] = "function not found"
 			continue
 		}
-		f := &fnTr{p: p, all: pkgs, fn: fd, fuel: t.Fuel, calls: map[string]bool{}}
+		f := &fnTr{p: p, all: pkgs, fn: fd, fuel: t.Fuel, calls: map[string]bool{}, loopNames: map[*ast.ForStmt]string{}, loopFuel: map[*ast.ForStmt]string{}}
 		s, err := f.translate()
 		if err != nil {
 			failed[key] = err.Error()
